@@ -294,18 +294,37 @@ func c05R4(c *Ctx, rule string) {
 			// the two length bytes: find the stored elements
 			if sl, ok := call.Call.Args[1].(*ssa.Slice); ok {
 				if al, ok := sl.X.(*ssa.Alloc); ok {
-					var els []string
+					// element 0 must be byte(len(in) >> 8), element 1 byte(len(in) & 0xff) (or byte(len(in)))
+					isLenIn := func(v ssa.Value) bool {
+						lc, ok := stripConv(v).(*ssa.Call)
+						return ok && calleeName(&lc.Call) == "builtin.len" && lc.Call.Args[0] == in
+					}
+					els := map[int64]ssa.Value{}
 					for _, r := range *al.Referrers() {
 						if ia, ok := r.(*ssa.IndexAddr); ok {
+							k, _ := intConst(ia.Index)
 							for _, rr := range *ia.Referrers() {
 								if s2, ok := rr.(*ssa.Store); ok {
-									els = append(els, Expr(s2.Val))
+									els[k] = s2.Val
 								}
 							}
 						}
 					}
-					joined := strings.Join(els, ",")
-					if strings.Contains(joined, ">> 8") && strings.Contains(joined, "& 255") && strings.Contains(joined, "len(in)") {
+					hiOK, loOK := false, false
+					if cv, ok := els[0].(*ssa.Convert); ok {
+						if bo, ok := cv.X.(*ssa.BinOp); ok && bo.Op == token.SHR && isLenIn(bo.X) && isK(bo.Y, 8) {
+							hiOK = true
+						}
+					}
+					if cv, ok := els[1].(*ssa.Convert); ok {
+						if bo, ok := cv.X.(*ssa.BinOp); ok && bo.Op == token.AND && isLenIn(bo.X) && isK(bo.Y, 255) {
+							loOK = true
+						}
+						if isLenIn(cv.X) {
+							loOK = true
+						}
+					}
+					if len(els) == 2 && hiOK && loOK {
 						lenBytes = true
 					}
 				}
